@@ -65,7 +65,19 @@ RULE = (
     "same bodies (compact case expanded by a PRNG; the simplest Hypothesis example, identical in every shard, is "
     "skipped and the run seed is mixed into the drawn seed); cell huge/sptenmat: sparse tensors with modes longer than "
     "2**40 / 2**53 / 2**60, more than 2**63 cells, subscripts at the ends of the modes and just above 2**53, judged "
-    "entry by entry with Python integers."
+    "entry by entry with Python integers.  "
+    "Round 4 - cells present/* (vf/props/_c01_present.py): the same conversion requests as ordinary callers present "
+    "them - rdims / cdims / subscripts in int32 / uint8 / uint16 / uint64 / int16 / uint32 / int8 / intp (a different "
+    "dtype on each side, empty arrays of those dtypes), shapes / tshapes as tuple / list / integer array / tuple or list "
+    "of numpy integer scalars / bare int or numpy scalar for one mode / left out, data / subscript / value / factor / "
+    "weight arrays that are read-only, strided, negatively strided, C-ordered or views at an offset (copy=True and "
+    "copy=False), optional arguments positionally, values in float32 / int32 / int16 / uint8 / uint16 (sparse too), "
+    "scipy COO / CSR / CSC matrices (int32 coordinates) for sptenmat.from_array and COO (also float32, unsorted) Tucker "
+    "factors in a list or a tuple under copy=True / False, Tucker cores in float32 / int32, sums with float32 parts, "
+    "shapes with more cells than the subscripts' dtype holds (uint8 on 272+ cells; int32 / uint32 / uint16 coordinates "
+    "on more than 2**31 cells, judged entry by entry), the root logger at DEBUG during the calls, and an ill-formed "
+    "split request between two valid ones.  Oracle: the absolute clauses above on the presented request + agreement "
+    "with the plain presentation + the arrays handed over / the receiver unchanged."
 )
 ASSUMPTIONS = [
     "den(object) is reconstructed from public attributes only (vf/ref.py); the expected array comes from the case",
@@ -87,6 +99,14 @@ ASSUMPTIONS = [
     "perturbation of 1e-12 relative still exceeds for cores of up to ~64 cells",
     "huge shapes: only shapes and splits whose row and column counts are below 2**63 (representable subscripts); "
     "nothing is expanded; the smallest huge mode is 2**40 so that an accidental dense allocation fails at once",
+    "presentations (round 4): only documented argument forms - rdims / cdims are integer ndarrays (any integer dtype), "
+    "shape / tshape of tensor, sptensor, tenmat is the documented Shape (int or iterable of ints: python or numpy), the "
+    "sptenmat tshape a tuple; a narrow dtype is widened when the case's own values do not fit it",
+    "float32 data in Tucker tensors and sums: the expected array is computed from the float32-rounded values and the "
+    "result judged by 64*n*eps_single*einsum(|.|) (either precision of the computation satisfies it); integer-valued "
+    "data stay exact; float32 values that are only moved (sparse <-> dense <-> matricized) are compared exactly",
+    "whether an ill-formed split request is rejected is C19's business; here it is only demanded that the receiver is "
+    "bit for bit what it was and the next valid request gives the tensor",
 ]
 
 
@@ -1943,4 +1963,8 @@ PREDICATES = {
     "order1_sparse_core": lambda c: len(c["shape"]) == 1 and bool(c["sparse_core"]) and any(v != 0 for v in c["core"]),
     "sum_has_order1_sparse_core_ttensor": lambda c: len(c["shape"]) == 1 and any(
         p["holder"] == "ttensor" and p["sparse_core"] and any(v != 0 for v in p["core"]) for p in c["parts"]),
+    "ttensor_coo_factor_nocopy": lambda c: c.get("kind") == "ttensor" and c.get("copy") is False and any(
+        "coo" in f for f in c.get("fforms", [])),
 }
+
+from . import _c01_present  # noqa: E402,F401  (round 4: cells C01/present/*)
